@@ -215,6 +215,17 @@ def run(pid, repo='/repo'):
                 pass
         return None if not bad else 'accepted: %r' % bad
     case('D35 stray ) accepted as opening bracket of rgb()/color256()', {'C14': 'reject_malformed'}, d35)
+    # D36 (reported by two round-7 agents as an observation on the unchanged tree)
+    def d36():
+        import copy, pickle
+        a = S('abc', '[77', 'bold', 'bold')
+        bad = []
+        for nm, f in (('copy.copy', copy.copy), ('copy.deepcopy', copy.deepcopy), ('pickle', lambda v: pickle.loads(pickle.dumps(v)))):
+            b = f(a)
+            if str.__str__(b) != b.to_str() or str.__str__(b) != str.__str__(a):
+                bad.append('%s: payload %r, rendering %r' % (nm, str.__str__(b), b.to_str()))
+        return None if not bad else '; '.join(bad)
+    case('D36 copy/pickle of an AnsiStr re-parses the payload', {'C13': 'ansistr_payload', 'C01': 'str_eq'}, d36)
     # D26 — known finding: byte-level idempotence of simplify() with verbatim multi-code settings
     def d26(build):
         def f():
